@@ -31,3 +31,14 @@ __CPROVER_loop_invariant(i < j && j <= GN)
 __CPROVER_loop_invariant((ghost_i == i && ghost_i < ghost_j && ghost_j < j) ==> GI(ghost_i) != GI(ghost_j))
 __CPROVER_decreases(GN - j)
 //@ end
+
+//@ function PedersenCommitmentScheme__TestMembership
+//@ contract
+__CPROVER_requires(__CPROVER_is_fresh(self, sizeof(*self)) && MPZ_OK(c))
+__CPROVER_assigns(PW_STATE)   /* ghost monitor only (a stricter test may call mpz_powm) */
+/* C05: a transmitted commitment outside 1..p-1 is refused, not silently reduced (this test is the only guard of
+ * the commitments of the Groth arguments before they are multiplied modulo p) */
+__CPROVER_ensures(__CPROVER_return_value ==> (0 < V(c) && V(c) < P))
+/* and every member of the order-q subgroup in that range is accepted (the test may be stricter than the range) */
+__CPROVER_ensures((0 < V(c) && V(c) < P && POWM(V(c), Q, P) == 1) ==> __CPROVER_return_value)
+//@ end
